@@ -1166,3 +1166,459 @@ Proof.
     apply (core_f15 pa p1 s1 J1). exact Hc. }
   intros [D _]. destruct C as [V _]. cbn [fst] in D. rewrite V in D. discriminate.
 Qed.
+
+(* ================================================================== H. retry detection of the slave *)
+
+Theorem slave_retry_detection s h pdu f rq :
+  sl_silent s = false -> wf_header h -> (length_byte h (length pdu) <= 249)%nat ->
+  h_fc h = FcRequest f rq -> (rq = RqSrdLow \/ rq = RqSrdHigh) -> h_da h = sl_addr s ->
+  (* a retransmission (FCV=1, stored bit) is answered with the stored response, nothing changes *)
+  (fcbit_fcv f = true -> sl_fcb s = Some (fcbit_fcb f) -> slave_step s (frame_spec h pdu) = (s, sl_resp s)) /\
+  (* FCV=1 with the other bit (or nothing stored): processed, bit and response stored *)
+  (fcbit_fcv f = true -> sl_fcb s <> Some (fcbit_fcb f) ->
+   slave_step s (frame_spec h pdu) =
+     (slave_store (fst (slave_process s h pdu)) (Some (fcbit_fcb f)) (snd (slave_process s h pdu)),
+      snd (slave_process s h pdu))) /\
+  (* FCV=0/FCB=1 (first request): always processed, the stored bit is reset to 1 *)
+  (f = FcbFirst ->
+   slave_step s (frame_spec h pdu) =
+     (slave_store (fst (slave_process s h pdu)) (Some true) (snd (slave_process s h pdu)),
+      snd (slave_process s h pdu))).
+Proof.
+  intros Hs Hwf Hl Hfc Hrq Hda.
+  pose proof (slave_step_request s h pdu f rq Hs Hwf Hl Hfc Hrq Hda) as H.
+  split; [|split].
+  - intros Hv Hb. rewrite H. unfold fresh. rewrite Hv, Hb, eqb_reflx. reflexivity.
+  - intros Hv Hb. rewrite H. unfold fresh, stored. rewrite Hv.
+    destruct (sl_fcb s) as [b|] eqn:Hsf.
+    + destruct (Bool.eqb b (fcbit_fcb f)) eqn:He.
+      * apply eqb_prop in He. subst b. now elim Hb.
+      * cbn [negb orb]. destruct (slave_process s h pdu). reflexivity.
+    + cbn [negb orb]. destruct (slave_process s h pdu). reflexivity.
+  - intros ->. rewrite H. unfold fresh, stored. cbn [fcbit_fcv fcbit_fcb negb orb].
+    destruct (slave_process s h pdu). reflexivity.
+Qed.
+
+(* ================================================================== I. a peripheral that stops answering *)
+
+Lemma live_req_retry pa op p r : live_req pa op (set_retry p r) = live_req pa op p.
+Proof. reflexivity. Qed.
+
+Lemma is_send_live_req pa op p :
+  pe_state p <> PsOffline ->
+  (pe_state p = PsWaitForParam -> o_user_prm (pe_opts p) <> None) ->
+  (pe_state p = PsWaitForConfig -> o_config (pe_opts p) <> None) ->
+  exists h pdu, live_req pa op p = PtxSend h pdu /\ h_da h = pe_addr p /\
+                exists rq, h_fc h = FcRequest (pe_fcb p) rq.
+Proof.
+  intros Hl Hu Hc. unfold live_req.
+  destruct (pe_state p); try (now elim Hl).
+  - destruct (o_user_prm (pe_opts p)); [|now elim (Hu eq_refl)]. do 2 eexists. split; [reflexivity|]. split; [reflexivity|eexists; reflexivity].
+  - destruct (o_config (pe_opts p)); [|now elim (Hc eq_refl)]. do 2 eexists. split; [reflexivity|]. split; [reflexivity|eexists; reflexivity].
+  - do 2 eexists. split; [reflexivity|]. split; [reflexivity|eexists; reflexivity].
+  - destruct (pe_diag_in_flight p); do 2 eexists; (split; [reflexivity|]); (split; [reflexivity|eexists; reflexivity]).
+  - destruct (pe_diag_in_flight p); do 2 eexists; (split; [reflexivity|]); (split; [reflexivity|eexists; reflexivity]).
+Qed.
+
+(* one unanswered turn of a live peripheral that has retries left *)
+Lemma tx_live_step pa op p :
+  op <> OpStop -> pe_state p <> PsOffline ->
+  (pe_state p = PsWaitForParam -> o_user_prm (pe_opts p) <> None) ->
+  (pe_state p = PsWaitForConfig -> o_config (pe_opts p) <> None) ->
+  pe_retry p <= p_max_retry pa -> p_max_retry pa < 255 ->
+  p_transmit pa op p = Ok (set_retry (latch p) (pe_retry p + 1), live_req pa op (latch p)).
+Proof.
+  intros Hop Hl Hu Hc Hr HM. unfold p_transmit. rewrite (opstate_eqb_stop op Hop). unfold p_transmit_select.
+  replace (dp_retry_exhausted (pe_retry p) (p_max_retry pa)) with false
+    by (symmetry; unfold dp_retry_exhausted; apply Z.ltb_ge; exact Hr).
+  assert (H255 : (255 <=? pe_retry p) = false) by (apply Z.leb_gt; lia).
+  unfold latch, live_req.
+  destruct (pe_state p) eqn:Hst; try (now elim Hl).
+  - rewrite Hst. destruct (o_user_prm (pe_opts p)); [|now elim (Hu eq_refl)].
+    unfold prm_request. rewrite H255. reflexivity.
+  - rewrite Hst. destruct (o_config (pe_opts p)); [|now elim (Hc eq_refl)].
+    unfold cfg_request. rewrite H255. reflexivity.
+  - rewrite Hst. unfold diag_request. rewrite H255. reflexivity.
+  - destruct (pe_retry p =? 0); cbn [pe_state set_diag_in_flight]; rewrite Hst;
+      match goal with |- context [if pe_diag_in_flight ?q then _ else _] => destruct (pe_diag_in_flight q) end;
+      unfold diag_request, dx_request; cbn [pe_retry set_diag_in_flight]; rewrite H255; reflexivity.
+  - destruct (pe_retry p =? 0); cbn [pe_state set_diag_in_flight]; rewrite Hst;
+      match goal with |- context [if pe_diag_in_flight ?q then _ else _] => destruct (pe_diag_in_flight q) end;
+      unfold diag_request, dx_request; cbn [pe_retry set_diag_in_flight]; rewrite H255; reflexivity.
+Qed.
+
+Lemma latch_idem_pos p : pe_retry p <> 0 -> latch p = p.
+Proof.
+  intro H. unfold latch. destruct (pe_state p); try reflexivity;
+    (destruct (Z.eqb_spec (pe_retry p) 0); [now elim H|reflexivity]).
+Qed.
+
+Lemma tx_silent_pos pa op : op <> OpStop -> p_max_retry pa < 255 -> forall n p,
+  pe_state p <> PsOffline ->
+  (pe_state p = PsWaitForParam -> o_user_prm (pe_opts p) <> None) ->
+  (pe_state p = PsWaitForConfig -> o_config (pe_opts p) <> None) ->
+  1 <= pe_retry p -> pe_retry p + Z.of_nat n = p_max_retry pa + 1 ->
+  tx_silent pa op n p = Ok (set_retry p (p_max_retry pa + 1), repeat (live_req pa op p) n).
+Proof.
+  intros Hop HM. induction n as [|n IH]; intros p Hl Hu Hc Hr Hn.
+  - cbn [tx_silent repeat]. replace (p_max_retry pa + 1) with (pe_retry p) by lia. destruct p; reflexivity.
+  - cbn [tx_silent]. rewrite (tx_live_step pa op p Hop Hl Hu Hc) by lia.
+    rewrite (latch_idem_pos p) by lia. cbn [bind].
+    rewrite (IH (set_retry p (pe_retry p + 1))); try assumption.
+    + cbn [bind repeat]. rewrite live_req_retry. destruct p; reflexivity.
+    + cbn [pe_retry set_retry]. lia.
+    + cbn [pe_retry set_retry]. lia.
+Qed.
+
+(* C07_silent_goes_offline *)
+Theorem silent_goes_offline pa op p :
+  op <> OpStop -> 0 <= p_max_retry pa < 255 -> pe_state p <> PsOffline ->
+  (pe_state p = PsWaitForParam -> o_user_prm (pe_opts p) <> None) ->
+  (pe_state p = PsWaitForConfig -> o_config (pe_opts p) <> None) ->
+  0 <= pe_retry p <= p_max_retry pa ->
+  let n := Z.to_nat (p_max_retry pa + 1 - pe_retry p) in
+  exists p' h pdu,
+    tx_silent pa op n p = Ok (p', repeat (PtxSend h pdu) n) /\
+    h_da h = pe_addr p /\ (exists rq, h_fc h = FcRequest (pe_fcb p) rq) /\
+    pe_state p' = pe_state p /\ pe_retry p' = p_max_retry pa + 1 /\
+    exists p'', p_transmit pa op p' = Ok (p'', PtxSkip (Some EvOffline)) /\ is_live p'' = false /\
+                pe_fcb p'' = FcbFirst.
+Proof.
+  intros Hop HM Hl Hu Hc Hr n.
+  assert (Hlatch : pe_state (latch p) = pe_state p /\ pe_opts (latch p) = pe_opts p /\ pe_addr (latch p) = pe_addr p /\
+                   pe_fcb (latch p) = pe_fcb p).
+  { unfold latch. destruct (pe_state p) eqn:Hst; try (rewrite Hst; repeat split; reflexivity);
+      destruct (pe_retry p =? 0); cbn; rewrite ?Hst; repeat split; reflexivity. }
+  destruct Hlatch as (L1 & L2 & L3 & L4).
+  assert (Hl' : pe_state (latch p) <> PsOffline) by (rewrite L1; exact Hl).
+  assert (Hu' : pe_state (latch p) = PsWaitForParam -> o_user_prm (pe_opts (latch p)) <> None) by (rewrite L1, L2; exact Hu).
+  assert (Hc' : pe_state (latch p) = PsWaitForConfig -> o_config (pe_opts (latch p)) <> None) by (rewrite L1, L2; exact Hc).
+  destruct (is_send_live_req pa op (latch p) Hl' Hu' Hc') as (h & pdu & Hreq & Hda & Hfc).
+  assert (Hfin : forall q, pe_retry q = p_max_retry pa + 1 ->
+            exists p'', p_transmit pa op q = Ok (p'', PtxSkip (Some EvOffline)) /\ is_live p'' = false /\ pe_fcb p'' = FcbFirst).
+  { intros q Hq. destruct (offline_declared pa op q Hop) as (p'' & H1 & H2 & H3 & _).
+    - unfold dp_retry_exhausted. apply Z.ltb_lt. lia.
+    - exists p''. repeat split; assumption. }
+  destruct (Z.eq_dec (pe_retry p) 0) as [H0|H0].
+  - (* first transmission latches the kind of request *)
+    assert (En : n = S (Z.to_nat (p_max_retry pa))) by (unfold n; rewrite H0; rewrite <- Z2Nat.inj_succ by lia; f_equal; lia).
+    rewrite En. cbn [tx_silent]. rewrite (tx_live_step pa op p Hop Hl Hu Hc) by lia. cbn [bind].
+    rewrite (tx_silent_pos pa op Hop (proj2 HM) (Z.to_nat (p_max_retry pa)) (set_retry (latch p) (pe_retry p + 1)));
+      try assumption; cbn [pe_retry set_retry]; try lia.
+    cbn [bind repeat]. rewrite live_req_retry, Hreq.
+    exists (set_retry (set_retry (latch p) (pe_retry p + 1)) (p_max_retry pa + 1)), h, pdu.
+    split; [reflexivity|]. split; [rewrite Hda; exact L3|]. split; [rewrite <- L4; exact Hfc|].
+    split; [exact L1|]. split; [reflexivity|]. apply Hfin. reflexivity.
+  - rewrite (tx_silent_pos pa op Hop (proj2 HM) n p Hl Hu Hc) by (unfold n; lia).
+    rewrite (latch_idem_pos p H0) in Hreq, Hda, Hfc. rewrite Hreq.
+    exists (set_retry p (p_max_retry pa + 1)), h, pdu.
+    split; [reflexivity|]. split; [exact Hda|]. split; [exact Hfc|].
+    split; [reflexivity|]. split; [reflexivity|]. apply Hfin. reflexivity.
+Qed.
+
+(* ================================================================== J. the life cycle reported to the user *)
+
+Lemma fits_off l p : life_fits l p -> pe_state p = PsOffline -> l = LOff.
+Proof. intros [[_ H] _] Hs. exact (H Hs). Qed.
+Lemma fits_live l p : life_fits l p -> pe_state p <> PsOffline -> l <> LOff.
+Proof. intros [[H _] _] Hs E. exact (Hs (H E)). Qed.
+
+(* the peripheral's turn: the only event is Offline, and only from a live state *)
+Lemma tx_life pa op p p1 r l :
+  1 <= p_max_retry pa -> p_transmit pa op p = Ok (p1, r) -> off_inv pa p -> life_fits l p ->
+  exists l', life_run l (tx_events r) = Some l' /\ life_fits l' p1 /\ off_inv pa p1.
+Proof.
+  intros HM H Hoff Hfit. pose proof (transmit_spec pa op p p1 r H) as Hs.
+  destruct r as [h pdu|[ev|]].
+  - destruct Hs as (Hex & _ & _ & _ & _ & Hr & Hst). exists l. split; [reflexivity|].
+    split; [destruct Hfit as [F1 F2]; split; rewrite Hst; assumption|].
+    intro Ho. rewrite Hst in Ho.
+    (* an Offline peripheral only sends when its counter is 0 *)
+    unfold p_transmit in H. destruct (opstate_eqb op OpStop); [discriminate|].
+    unfold p_transmit_select in H. rewrite Hex, Ho in H. unfold dp_offline_probe_retry in H.
+    destruct (Z.eqb_spec (pe_retry p) 0) as [E|E]; [|discriminate]. rewrite Hr, E. lia.
+  - destruct Hs as (-> & Hex & _ & Hst & Hr). cbn [tx_events life_run].
+    assert (Hlive : pe_state p <> PsOffline).
+    { intro Ho. specialize (Hoff Ho). unfold dp_retry_exhausted in Hex. apply Z.ltb_lt in Hex. lia. }
+    pose proof (fits_live l p Hfit Hlive) as Hl.
+    exists LOff. split; [destruct l; [now elim Hl|reflexivity|reflexivity]|].
+    split; [split; [split; [intros _; exact Hst|reflexivity]|rewrite Hst; intros [D|D]; discriminate]|].
+    intros _. rewrite Hr. lia.
+  - destruct Hs as (_ & Hr & Hst & _). exists l. split; [reflexivity|].
+    split; [destruct Hfit as [F1 F2]; split; rewrite Hst; assumption|]. intros _. rewrite Hr. lia.
+Qed.
+
+Lemma fits_mk l s (p : periph) :
+  pe_state p = s ->
+  (l = LOff <-> s = PsOffline) -> (s = PsPreDataExchange \/ s = PsDataExchange -> l = LCfg) -> life_fits l p.
+Proof. intros <- H1 H2. split; assumption. Qed.
+
+(* a reply: Online from Offline; Configured / errors / nothing from the bring-up states; DataExchanged and
+   Diagnostics only in (Pre)DataExchange *)
+Lemma rx_life pa p t p1 ev l :
+  0 <= p_max_retry pa -> p_receive_reply p t = Ok (p1, ev) -> off_inv pa p -> life_fits l p ->
+  exists l', life_run l (match ev with Some e => [e] | None => [] end) = Some l' /\ life_fits l' p1 /\ off_inv pa p1.
+Proof.
+  intros HM H Hoff Hfit. unfold p_receive_reply in H.
+  destruct (pe_state p) eqn:Hst.
+  - (* Offline *)
+    pose proof (fits_off l p Hfit Hst) as ->.
+    unfold bind in H. destruct (p_handle_diag p t) as [[p0 d]| |] eqn:Hd; try discriminate.
+    apply handle_diag_frame in Hd. destruct Hd as (_ & Hs0 & Hr0 & _ & _ & _ & _ & _ & Hn & _).
+    destruct d; inversion H; subst.
+    + exists LOn. split; [reflexivity|]. split.
+      * apply (fits_mk _ PsWaitForParam); [reflexivity|split; discriminate|intros [D|D]; discriminate].
+      * intro D. discriminate.
+    + exists LOff. split; [reflexivity|]. rewrite (Hn eq_refl). split; [exact Hfit|exact Hoff].
+  - (* WaitForParam *)
+    assert (Hl : l <> LOff) by (apply (fits_live l p Hfit); rewrite Hst; discriminate).
+    destruct (is_sc t); unfold bind in H.
+    + destruct (fcb_cycle (pe_fcb p)); try discriminate. inversion H; subst. exists l. split; [reflexivity|].
+      split; [|intro D; discriminate].
+      apply (fits_mk _ PsWaitForConfig); [reflexivity|split; [intro E; now elim Hl|discriminate]|intros [D|D]; discriminate].
+    + inversion H; subst. exists l. split; [reflexivity|]. split; [exact Hfit|exact Hoff].
+  - (* WaitForConfig *)
+    assert (Hl : l <> LOff) by (apply (fits_live l p Hfit); rewrite Hst; discriminate).
+    destruct (is_sc t); unfold bind in H.
+    + destruct (fcb_cycle (pe_fcb p)); try discriminate. inversion H; subst. exists l. split; [reflexivity|].
+      split; [|intro D; discriminate].
+      apply (fits_mk _ PsValidateConfig); [reflexivity|split; [intro E; now elim Hl|discriminate]|intros [D|D]; discriminate].
+    + inversion H; subst. exists l. split; [reflexivity|]. split; [exact Hfit|exact Hoff].
+  - (* ValidateConfig *)
+    assert (Hl : l <> LOff) by (apply (fits_live l p Hfit); rewrite Hst; discriminate).
+    unfold bind in H. destruct (p_handle_diag (set_retry p 0) t) as [[p0 d]| |] eqn:Hd; try discriminate.
+    apply handle_diag_frame in Hd. destruct Hd as (_ & Hs0 & Hr0 & _ & _ & _ & _ & _ & Hn & _).
+    cbn [pe_retry pe_state set_retry] in Hr0, Hs0.
+    destruct d as [di|].
+    + unfold validate_outcome in H.
+      destruct (flags_contains (d_flags di) DF_PARAMETER_FAULT).
+      { inversion H; subst. exists LOff. split; [destruct l; [now elim Hl|reflexivity|reflexivity]|].
+        split; [apply (fits_mk _ PsOffline); [reflexivity|split; reflexivity|intros [D|D]; discriminate]|].
+        intros _. cbn [pe_retry set_state]. rewrite Hr0. exact HM. }
+      destruct (flags_contains (d_flags di) DF_CONFIGURATION_FAULT).
+      { inversion H; subst. exists LOff. split; [destruct l; [now elim Hl|reflexivity|reflexivity]|].
+        split; [apply (fits_mk _ PsOffline); [reflexivity|split; reflexivity|intros [D|D]; discriminate]|].
+        intros _. cbn [pe_retry set_state]. rewrite Hr0. exact HM. }
+      destruct (flags_contains (d_flags di) DF_PARAMETER_REQUIRED).
+      { inversion H; subst. exists l. split; [reflexivity|]. split; [|intro D; discriminate].
+        apply (fits_mk _ PsWaitForParam); [reflexivity|split; [intro E; now elim Hl|discriminate]|intros [D|D]; discriminate]. }
+      destruct (negb (flags_contains (d_flags di) DF_STATION_NOT_READY)).
+      { inversion H; subst. exists LCfg. split; [destruct l; [now elim Hl|reflexivity|reflexivity]|].
+        split; [|intro D; discriminate].
+        apply (fits_mk _ PsPreDataExchange); [reflexivity|split; discriminate|reflexivity]. }
+      inversion H; subst. exists l. split; [reflexivity|]. split; [|intro D; discriminate].
+      apply (fits_mk _ PsValidateConfig); [reflexivity|split; [intro E; now elim Hl|discriminate]|intros [D|D]; discriminate].
+    + inversion H; subst. exists l. split; [reflexivity|]. split; [|intro D; discriminate].
+      apply (fits_mk _ PsValidateConfig); [reflexivity|split; [intro E; now elim Hl|discriminate]|intros [D|D]; discriminate].
+  - (* PreDataExchange *)
+    assert (Hl : l = LCfg) by (destruct Hfit as [_ F]; apply F; left; exact Hst). subst l.
+    destruct (pe_diag_in_flight p); unfold bind in H.
+    + destruct (p_handle_diag p t) as [[p0 d]| |] eqn:Hd; try discriminate.
+      apply handle_diag_frame in Hd. destruct Hd as (_ & Hs0 & _ & _ & _ & _ & _ & _ & Hn & _).
+      destruct d as [di|].
+      * exists LCfg. split; [inversion H; reflexivity|]. split; [|inversion H; subst; intro D;
+          destruct (flags_contains (d_flags di) DF_PARAMETER_REQUIRED); cbn in D; try discriminate; rewrite Hs0, Hst in D; discriminate].
+        inversion H; subst. destruct (flags_contains (d_flags di) DF_PARAMETER_REQUIRED).
+        -- apply (fits_mk _ PsWaitForParam); [reflexivity|split; discriminate|reflexivity].
+        -- apply (fits_mk _ PsPreDataExchange); [cbn; rewrite Hs0; exact Hst|split; discriminate|reflexivity].
+      * inversion H; subst. exists LCfg. split; [reflexivity|]. rewrite (Hn eq_refl). split; [exact Hfit|exact Hoff].
+    + destruct (p_receive_dx p t) as [[p0 e0]| |] eqn:Hdx; try discriminate.
+      destruct (fcb_cycle (pe_fcb (set_retry p0 0))); try discriminate. inversion H; subst.
+      assert (Hs0 : pe_state p0 = PsValidateConfig \/ pe_state p0 = PsPreDataExchange \/ pe_state p0 = PsDataExchange).
+      { unfold p_receive_dx in Hdx. destruct t as [h pdu|d s|]; [|discriminate|].
+        - destruct (h_fc h) as [|rl st]; [discriminate|].
+          destruct st; cbn [fst snd] in Hdx;
+            repeat match type of Hdx with context [if ?c then _ else _] => destruct c end;
+            unfold copy_from_slice, bind in Hdx;
+            repeat match type of Hdx with context [if ?c then _ else _] => destruct c end;
+            try discriminate; inversion Hdx; subst; cbn; rewrite ?Hst; auto.
+        - destruct (negb (Nat.eqb (length (pe_pi_i p)) 0)); inversion Hdx; subst; cbn; rewrite ?Hst; auto. }
+      assert (He : ev = None \/ ev = Some EvDataExchanged).
+      { unfold p_receive_dx in Hdx. destruct t as [h pdu|d s|]; [|discriminate|].
+        - destruct (h_fc h) as [|rl st]; [discriminate|].
+          destruct st; cbn [fst snd] in Hdx;
+            repeat match type of Hdx with context [if ?c then _ else _] => destruct c end;
+            unfold copy_from_slice, bind in Hdx;
+            repeat match type of Hdx with context [if ?c then _ else _] => destruct c end;
+            try discriminate; inversion Hdx; subst; auto.
+        - destruct (negb (Nat.eqb (length (pe_pi_i p)) 0)); inversion Hdx; subst; auto. }
+      exists LCfg. split; [destruct He as [-> | ->]; reflexivity|].
+      split; [|intro D; cbn in D; destruct Hs0 as [E|[E|E]]; rewrite E in D; discriminate].
+      split; [split; [discriminate|cbn; intro D; destruct Hs0 as [E|[E|E]]; rewrite E in D; discriminate]|reflexivity].
+  - (* DataExchange *)
+    assert (Hl : l = LCfg) by (destruct Hfit as [_ F]; apply F; right; exact Hst). subst l.
+    destruct (pe_diag_in_flight p); unfold bind in H.
+    + destruct (p_handle_diag p t) as [[p0 d]| |] eqn:Hd; try discriminate.
+      apply handle_diag_frame in Hd. destruct Hd as (_ & Hs0 & _ & _ & _ & _ & _ & _ & Hn & _).
+      destruct d as [di|].
+      * exists LCfg. split; [inversion H; reflexivity|]. split; [|inversion H; subst; intro D;
+          destruct (flags_contains (d_flags di) DF_PARAMETER_REQUIRED); cbn in D; try discriminate; rewrite Hs0, Hst in D; discriminate].
+        inversion H; subst. destruct (flags_contains (d_flags di) DF_PARAMETER_REQUIRED).
+        -- apply (fits_mk _ PsWaitForParam); [reflexivity|split; discriminate|reflexivity].
+        -- apply (fits_mk _ PsDataExchange); [cbn; rewrite Hs0; exact Hst|split; discriminate|reflexivity].
+      * inversion H; subst. exists LCfg. split; [reflexivity|]. rewrite (Hn eq_refl). split; [exact Hfit|exact Hoff].
+    + destruct (p_receive_dx p t) as [[p0 e0]| |] eqn:Hdx; try discriminate.
+      destruct (fcb_cycle (pe_fcb (set_retry p0 0))); try discriminate. inversion H; subst.
+      assert (Hs0 : pe_state p0 = PsValidateConfig \/ pe_state p0 = PsPreDataExchange \/ pe_state p0 = PsDataExchange).
+      { unfold p_receive_dx in Hdx. destruct t as [h pdu|d s|]; [|discriminate|].
+        - destruct (h_fc h) as [|rl st]; [discriminate|].
+          destruct st; cbn [fst snd] in Hdx;
+            repeat match type of Hdx with context [if ?c then _ else _] => destruct c end;
+            unfold copy_from_slice, bind in Hdx;
+            repeat match type of Hdx with context [if ?c then _ else _] => destruct c end;
+            try discriminate; inversion Hdx; subst; cbn; rewrite ?Hst; auto.
+        - destruct (negb (Nat.eqb (length (pe_pi_i p)) 0)); inversion Hdx; subst; cbn; rewrite ?Hst; auto. }
+      assert (He : ev = None \/ ev = Some EvDataExchanged).
+      { unfold p_receive_dx in Hdx. destruct t as [h pdu|d s|]; [|discriminate|].
+        - destruct (h_fc h) as [|rl st]; [discriminate|].
+          destruct st; cbn [fst snd] in Hdx;
+            repeat match type of Hdx with context [if ?c then _ else _] => destruct c end;
+            unfold copy_from_slice, bind in Hdx;
+            repeat match type of Hdx with context [if ?c then _ else _] => destruct c end;
+            try discriminate; inversion Hdx; subst; auto.
+        - destruct (negb (Nat.eqb (length (pe_pi_i p)) 0)); inversion Hdx; subst; auto. }
+      exists LCfg. split; [destruct He as [-> | ->]; reflexivity|].
+      split; [|intro D; cbn in D; destruct Hs0 as [E|[E|E]]; rewrite E in D; discriminate].
+      split; [split; [discriminate|cbn; intro D; destruct Hs0 as [E|[E|E]]; rewrite E in D; discriminate]|reflexivity].
+Qed.
+
+Lemma life_run_app l a b :
+  life_run l (a ++ b) = match life_run l a with Some l1 => life_run l1 b | None => None end.
+Proof.
+  revert l. induction a as [|e a IH]; intro l; [reflexivity|].
+  cbn [app life_run]. destruct (l_step l e); [apply IH|reflexivity].
+Qed.
+
+Lemma pop_life pa op p o p1 evs l :
+  1 <= p_max_retry pa -> pop_step pa op p o = Ok (p1, evs) -> off_inv pa p -> life_fits l p ->
+  exists l', life_run l evs = Some l' /\ life_fits l' p1 /\ off_inv pa p1.
+Proof.
+  intros HM H Hoff Hfit. destruct o as [|t| |q]; cbn [pop_step] in H.
+  - unfold bind in H. destruct (p_transmit pa op p) as [[p0 r]| |] eqn:Ht; try discriminate.
+    inversion H; subst. exact (tx_life pa op p p1 r l HM Ht Hoff Hfit).
+  - unfold bind in H. destruct (p_receive_reply p t) as [[p0 ev]| |] eqn:Hr; try discriminate.
+    inversion H; subst. apply (rx_life pa p t p1 ev l); try assumption. lia.
+  - inversion H; subst. exists l. split; [reflexivity|]. split; [exact Hfit|exact Hoff].
+  - inversion H; subst. exists l. split; [reflexivity|]. split; [exact Hfit|exact Hoff].
+Qed.
+
+(* C07_online_again, history form: over EVERY history of turns, replies (any telegram), timeouts and user calls
+   the events handed out follow the life-cycle automaton *)
+Theorem life_history pa op : 1 <= p_max_retry pa -> forall ops p l p' evs,
+  run_pops pa op p ops = Ok (p', evs) -> off_inv pa p -> life_fits l p ->
+  exists l', life_run l evs = Some l' /\ life_fits l' p' /\ off_inv pa p'.
+Proof.
+  intros HM. induction ops as [|o ops IH]; intros p l p' evs H Hoff Hfit.
+  - inversion H; subst. exists l. split; [reflexivity|]. split; assumption.
+  - cbn [run_pops] in H. unfold bind in H.
+    destruct (pop_step pa op p o) as [[p1 e1]| |] eqn:H1; try discriminate.
+    destruct (run_pops pa op p1 ops) as [[p2 e2]| |] eqn:H2; try discriminate.
+    inversion H; subst.
+    destruct (pop_life pa op p o p1 e1 l HM H1 Hoff Hfit) as (l1 & R1 & F1 & O1).
+    destruct (IH p1 l1 p' e2 H2 O1 F1) as (l2 & R2 & F2 & O2).
+    exists l2. split; [rewrite life_run_app, R1; exact R2|]. split; assumption.
+Qed.
+
+(* what the automaton accepts on the way from Off to Cfg *)
+Lemma life_reaches_cfg : forall evs l, life_run l evs = Some LCfg ->
+  match l with
+  | LCfg => True
+  | LOn => exists b c, evs = b ++ EvConfigured :: c
+  | LOff => exists a b c, evs = a ++ EvOnline :: b ++ EvConfigured :: c
+  end.
+Proof.
+  induction evs as [|e r IH]; intros l H.
+  - cbn in H. inversion H; subst. exact I.
+  - cbn [life_run] in H. destruct (l_step l e) as [l1|] eqn:Hs; [|discriminate].
+    specialize (IH l1 H).
+    destruct l; [| |exact I].
+    + destruct e; try discriminate. inversion Hs; subst. destruct IH as (b & c & ->).
+      exists [], b, c. reflexivity.
+    + destruct e; try discriminate; inversion Hs; subst.
+      * exists [], r. reflexivity.
+      * destruct IH as (a & b & c & ->). exists (EvConfigError :: a ++ EvOnline :: b), c.
+        cbn [app]. rewrite <- app_assoc. reflexivity.
+      * destruct IH as (a & b & c & ->). exists (EvParameterError :: a ++ EvOnline :: b), c.
+        cbn [app]. rewrite <- app_assoc. reflexivity.
+      * destruct IH as (a & b & c & ->). exists (EvOffline :: a ++ EvOnline :: b), c.
+        cbn [app]. rewrite <- app_assoc. reflexivity.
+Qed.
+
+(* no DataExchanged is accepted before Online and Configured *)
+Lemma dx_needs_online_configured a b l :
+  life_run LOff (a ++ EvDataExchanged :: b) = Some l ->
+  exists a1 a2 a3, a = a1 ++ EvOnline :: a2 ++ EvConfigured :: a3.
+Proof.
+  rewrite life_run_app. destruct (life_run LOff a) as [l1|] eqn:Ha; [|discriminate].
+  cbn [life_run]. destruct l1; try discriminate. intros _.
+  exact (life_reaches_cfg a LOff Ha).
+Qed.
+
+(* the joint run is one particular history *)
+Lemma run_pops_app pa op a : forall p b,
+  run_pops pa op p (a ++ b) =
+    (let* (p1, e1) := run_pops pa op p a in let* (p2, e2) := run_pops pa op p1 b in Ok (p2, e1 ++ e2)).
+Proof.
+  induction a as [|o a IH]; intros p b.
+  - cbn [app run_pops bind]. destruct (run_pops pa op p b) as [[p2 e2]| |]; reflexivity.
+  - cbn [app run_pops]. destruct (pop_step pa op p o) as [[p1 e1]| |]; cbn [bind]; try reflexivity.
+    rewrite IH. destruct (run_pops pa op p1 a) as [[p2 e2]| |]; cbn [bind]; try reflexivity.
+    destruct (run_pops pa op p2 b) as [[p3 e3]| |]; cbn [bind]; try reflexivity.
+    rewrite app_assoc. reflexivity.
+Qed.
+
+Lemma joint_cycle_pops pa op p s p' s' evs :
+  joint_cycle pa op (p, s) = Ok ((p', s'), evs) -> exists ops, run_pops pa op p ops = Ok (p', evs).
+Proof.
+  unfold joint_cycle. unfold bind at 1. destruct (p_transmit pa op p) as [[p1 r]| |] eqn:Ht; try discriminate.
+  destruct r as [h pdu|ev].
+  - destruct (slave_step s (frame_spec h pdu)) as [s1 reply].
+    destruct (deliver (p_address pa) (pe_addr p) reply) as [t|].
+    + unfold bind. destruct (p_receive_reply p1 t) as [[p2 ev]| |] eqn:Hr; try discriminate.
+      intro H. inversion H; subst. exists [PopTx; PopRx t].
+      cbn [run_pops pop_step]. rewrite Ht. cbn [bind]. rewrite Hr. cbn [bind tx_events app].
+      rewrite app_nil_r. reflexivity.
+    + intro H. inversion H; subst. exists [PopTx]. cbn [run_pops pop_step]. rewrite Ht. reflexivity.
+  - intro H. inversion H; subst. exists [PopTx]. cbn [run_pops pop_step]. rewrite Ht. cbn [bind tx_events].
+    rewrite app_nil_r. destruct ev; reflexivity.
+Qed.
+
+Lemma joint_run_pops pa op : forall n p s p' s' evs,
+  joint_run pa op n (p, s) = Ok ((p', s'), evs) -> exists ops, run_pops pa op p ops = Ok (p', evs).
+Proof.
+  induction n as [|n IH]; intros p s p' s' evs H.
+  - inversion H; subst. exists []. reflexivity.
+  - cbn [joint_run] in H. unfold bind in H.
+    destruct (joint_cycle pa op (p, s)) as [[[p1 s1] e1]| |] eqn:H1; try discriminate.
+    destruct (joint_run pa op n (p1, s1)) as [[[p2 s2] e2]| |] eqn:H2; try discriminate.
+    inversion H; subst.
+    destruct (joint_cycle_pops pa op p s p1 s1 e1 H1) as (o1 & R1).
+    destruct (IH p1 s1 p' s' e2 H2) as (o2 & R2).
+    exists (o1 ++ o2). rewrite run_pops_app, R1. cbn [bind]. rewrite R2. reflexivity.
+Qed.
+
+(* C07_online_again, joint form: a peripheral reported Offline whose device answers again is in data exchange
+   within the bound, and on the way it was reported Online and then Configured; the whole event sequence
+   is accepted by the life-cycle automaton from Off (so no DataExchanged comes before them) *)
+Theorem online_again pa op p s :
+  jinv pa p s -> op <> OpStop -> pe_state p = PsOffline -> pe_retry p <= p_max_retry pa ->
+  exists k st' evs, (k <= c07_cycles (p_max_retry pa))%nat /\
+    joint_run pa op k (p, s) = Ok (st', evs) /\ in_dx st' /\
+    life_run LOff evs = Some LCfg /\
+    exists a b c, evs = a ++ EvOnline :: b ++ EvConfigured :: c.
+Proof.
+  intros J Hop Hst Hr.
+  assert (Hns : ~ f15_suspect (p, s)).
+  { intros [_ [D|[D|[D|[D _]]]]]; rewrite Hst in D; discriminate. }
+  destruct (recovery_explicit pa op p s J Hop Hns) as (k & Hk & Hall).
+  destruct (Hall k (le_n k)) as ([p' s'] & evs & Hrun & Hdx).
+  exists k, (p', s'), evs. split; [exact Hk|]. split; [exact Hrun|]. split; [exact Hdx|].
+  destruct (joint_run_pops pa op k p s p' s' evs Hrun) as (ops & Hops).
+  assert (HM : 1 <= p_max_retry pa) by (destruct (ji_M _ _ _ J); assumption).
+  assert (Hfit : life_fits LOff p).
+  { split; [split; [intros _; exact Hst|reflexivity]|intros [D|D]; rewrite Hst in D; discriminate]. }
+  destruct (life_history pa op HM ops p LOff p' evs Hops (fun _ => Hr) Hfit) as (l' & Hl & [_ F2] & _).
+  destruct Hdx as [D _]. cbn [fst] in D.
+  assert (l' = LCfg) by (apply F2; right; exact D). subst l'.
+  split; [exact Hl|]. exact (life_reaches_cfg evs LOff Hl).
+Qed.
